@@ -563,6 +563,15 @@ func analyseNames(text string) (globals, scoped []string) {
 			gl[m[1]] = true
 		}
 	}
+	// a name that is scoped in one place but assigned in the main body
+	// (outside every function definition) is a global as well
+	main := stripFunctionDefs(text)
+	for _, m := range reAssign.FindAllStringSubmatch(main, -1) {
+		if sc[m[1]] {
+			gl[m[1]] = true
+			delete(sc, m[1])
+		}
+	}
 	for k := range gl {
 		globals = append(globals, k)
 	}
@@ -572,6 +581,36 @@ func analyseNames(text string) (globals, scoped []string) {
 	sort.Strings(globals)
 	sort.Strings(scoped)
 	return
+}
+
+// stripFunctionDefs removes `function name(...) { ... }` blocks.
+func stripFunctionDefs(text string) string {
+	var out strings.Builder
+	for {
+		i := strings.Index(text, "function ")
+		if i < 0 {
+			out.WriteString(text)
+			return out.String()
+		}
+		out.WriteString(text[:i])
+		j := strings.Index(text[i:], "{")
+		if j < 0 {
+			return out.String()
+		}
+		depth, k := 0, i+j
+		for ; k < len(text); k++ {
+			if text[k] == '{' {
+				depth++
+			} else if text[k] == '}' {
+				depth--
+				if depth == 0 {
+					k++
+					break
+				}
+			}
+		}
+		text = text[k:]
+	}
 }
 
 func joinTrace(t []string) string { return strings.Join(t, ";") }
